@@ -488,3 +488,75 @@ Theorem C15_token_leg_is_source : forall HB c m v tccm clock,
          (fun b => if py_truthy b then Ok tt else Err (Refused 4)).
 Proof. exact Src_refine_pkce.token_leg_is_source. Qed.
 Print Assumptions C15_token_leg_is_source.
+
+(* --- round 11 --- *)
+(* HISTORIES OF THE RELYING PARTY'S STORE (Model/PkceRp.v): the authorization request may be built several times under one
+   state value (regenerated log-in URL, retry, caller-supplied fixed state), by an OAuth2 relying party (the record is
+   updated) or an OIDC one (the record is reset first), interleaved with requests under other states and with responses
+   being stored.  From any store, after any earlier history: the token request for s carries the verifier drawn by the
+   LATEST request built under s ... *)
+From Verif Require Model.PkceRp Proofs.PkceRp_proofs.
+Import PkceRp.
+Theorem C15_rp_latest_begin_sent : forall HB st0 before after oidc s m v iss others c m',
+  rp_make HB m v = Ok (c, m') -> assoc kv_verifier others = None -> Forall (PkceRp_proofs.quiet s) after ->
+  rp_sent (rp_run HB st0 (before ++ RpBegin oidc s m v iss others :: after)) s = Ok (Some v).
+Proof. exact PkceRp_proofs.latest_begin_sent. Qed.
+Print Assumptions C15_rp_latest_begin_sent.
+
+(* ... hence this library's provider accepts the pair of the latest request (the challenge it was sent, the verifier the
+   token request carries), for both client types and every history *)
+Theorem C15_rp_latest_pair_accepted : forall HB, (forall n x, HB n x <> []) ->
+  forall cf ce tccm st0 before after oidc s m v iss others c m',
+  rp_make HB m v = Ok (c, m') -> v <> [] -> In m' (pc_methods cf) ->
+  assoc kv_verifier others = None -> Forall (PkceRp_proofs.quiet s) after ->
+  flow HB cf ce (Some c) (Some m')
+       (rp_token_verifier (rp_run HB st0 (before ++ RpBegin oidc s m v iss others :: after)) s) tccm = Tokens.
+Proof. exact PkceRp_proofs.latest_pair_accepted. Qed.
+Print Assumptions C15_rp_latest_pair_accepted.
+
+(* ... and the source's verify_code_challenge (translated on every run) answers True on that pair *)
+Theorem C15_rp_latest_pair_verify_code_challenge : forall HB st0 before after oidc s m v iss others c m' clock,
+  rp_make HB m v = Ok (c, m') -> assoc kv_verifier others = None -> Forall (PkceRp_proofs.quiet s) after ->
+  exists v', rp_token_verifier (rp_run HB st0 (before ++ RpBegin oidc s m v iss others :: after)) s = Some v'
+    /\ Src_pkce.verify_code_challenge_src (Src_refine_pkce.cc_method_env HB) (VStr v') (VStr c) (VStr m') clock
+       = Ok (VBool true).
+Proof. exact PkceRp_proofs.latest_pair_verify_code_challenge. Qed.
+Print Assumptions C15_rp_latest_pair_verify_code_challenge.
+
+(* the code of an EARLIER request under the same state is decided on the verifier of the latest one (C15_tokens_iff then
+   says when: only if that verifier happens to transform to the earlier challenge) *)
+Theorem C15_rp_earlier_code_decided_on_latest : forall HB cf ce tccm st0 before after oidc s m v iss others c m' c1 m1,
+  rp_make HB m v = Ok (c, m') -> assoc kv_verifier others = None -> Forall (PkceRp_proofs.quiet s) after ->
+  flow HB cf ce c1 m1 (rp_token_verifier (rp_run HB st0 (before ++ RpBegin oidc s m v iss others :: after)) s) tccm
+  = flow HB cf ce c1 m1 (Some v) tccm.
+Proof. exact PkceRp_proofs.earlier_code_decided_on_latest_verifier. Qed.
+Print Assumptions C15_rp_earlier_code_decided_on_latest.
+
+(* non-vacuity, and why the ORDER of the writes matters: two requests under state "S" by an OAuth2 and by an OIDC relying
+   party, the other state "T" in between, the first response stored: the second verifier is sent and redeems the second
+   code, not the first; a store that keeps the first code_verifier of a record (first_kept_update) sends the stale one,
+   which this library's provider refuses *)
+Definition h2 (oidc : bool) : list rp_op :=
+  [RpBegin oidc (PS "S") None (PS "verifier-one") (PS "https://op") [(PS "state", PS "S"); (PS "nonce", PS "n1")];
+   RpBegin oidc (PS "T") None (PS "verifier-T") (PS "https://op") [(PS "state", PS "T")];
+   RpStore (PS "S") [(PS "code", PS "c1"); (PS "state", PS "S")];
+   RpBegin oidc (PS "S") None (PS "verifier-two") (PS "https://op") [(PS "state", PS "S"); (PS "nonce", PS "n2")];
+   RpStore (PS "S") [(PS "code", PS "c2"); (PS "state", PS "S")]].
+Example C15_nonvacuous_rp_history :
+  (forall oidc, rp_sent (rp_run HBx [] (h2 oidc)) (PS "S") = Ok (Some (PS "verifier-two")))
+  /\ (forall oidc, rp_sent (rp_run HBx [] (h2 oidc)) (PS "T") = Ok (Some (PS "verifier-T")))
+  /\ (forall oidc, flow HBx cf_all None (Some (HBx 256 (PS "verifier-two"))) (Some (PS "S256"))
+                     (rp_token_verifier (rp_run HBx [] (h2 oidc)) (PS "S")) None = Tokens)
+  /\ (forall oidc, flow HBx cf_all None (Some (HBx 256 (PS "verifier-one"))) (Some (PS "S256"))
+                     (rp_token_verifier (rp_run HBx [] (h2 oidc)) (PS "S")) None = TkRefused 4)
+  (* the OAuth2 record keeps the first nonce (the guard of Current.update), the OIDC record was reset *)
+  /\ option_map (assoc kv_nonce) (assoc (PS "S") (rp_run HBx [] (h2 false))) = Some (Some (PS "n1"))
+  /\ option_map (assoc kv_nonce) (assoc (PS "S") (rp_run HBx [] (h2 true))) = Some (Some (PS "n2"))
+  (* first-write-wins for code_verifier: the stale verifier, refused for the code of the latest request *)
+  /\ (let st1 := rp_run HBx [] [RpBegin false (PS "S") None (PS "verifier-one") (PS "https://op") []] in
+      let st2 := PkceRp_proofs.first_kept_update st1 (PS "S") [(kv_verifier, PS "verifier-two"); (kv_method, PS "S256")] in
+      rp_token_verifier st2 (PS "S") = Some (PS "verifier-one")
+      /\ flow HBx cf_all None (Some (HBx 256 (PS "verifier-two"))) (Some (PS "S256")) (rp_token_verifier st2 (PS "S")) None
+         = TkRefused 4).
+Proof. repeat split; try (intros [|]); vm_compute; reflexivity. Qed.
+(* --- end round 11 --- *)
